@@ -204,7 +204,7 @@ theorem bfs_inner_full {ds : DSymData} (hv : ValidSet ds.dset) {d : Nat} (hd1 : 
     (∀ x, ¬ Reached ds 1 tree x → Reached ds 1 r.2.2 x → x ∈ r.2.1)
   | [], _, seen, queue, tree, _, _ => by
     simp only [List.foldl_nil]
-    exact ⟨rfl, fun i hi => (by cases hi), fun e he => he, fun x hx => hx, fun x hx => Or.inl hx,
+    exact ⟨trivial, fun i hi => (by cases hi), fun e he => he, fun x hx => hx, fun x hx => Or.inl hx,
       fun x h1 h2 => absurd h2 h1⟩
   | i :: is, his, seen, queue, tree, h, hr => by
     simp only [List.foldl_cons]
@@ -302,5 +302,65 @@ theorem bfsLoop_closed {ds : DSymData} (hv : ValidSet ds.dset) (hsize : 1 ≤ ds
         · exact absurd (a6 x hxr hx) hxq
     · simp only [List.length_cons] at hm
       omega
+
+/-- on a connected valid symbol the Spec's breadth-first tree has `size - 1` facets
+    (`connectedBfs` holds) -/
+theorem spanTree_length {ds : DSymData} (hv : ValidSet ds.dset) (hsize : 1 ≤ ds.size)
+    (hc : ds.view.isConnected = true) : (SpecC09.spanTree (gOf ds)).length + 1 = ds.size := by
+  have hp : ds.view.PInvol := (C02.traversal_hyp ds.dset).2.2 ds hv
+  have hconn := (C02.isConnected_iff ds.view hp).1 hc
+  have hot := spanTree_otree hv hsize
+  have hclosed : Closed ds [] (SpecC09.spanTree (gOf ds)) := by
+    unfold SpecC09.spanTree
+    apply bfsLoop_closed hv hsize
+    · have hsz : ((Array.replicate ((gOf ds).size + 1) false).setIfInBounds 1 true).size = ds.size + 1 := by
+        rw [Array.size_setIfInBounds, Array.size_replicate, gOf_size]
+      refine ⟨hsz, ?_, OTree.nil, ?_⟩
+      · intro x h1 h2
+        rw [getD_setIfInBounds _ _ _ _ _ (by rw [Array.size_replicate, gOf_size]; omega)]
+        by_cases hx : x = 1
+        · rw [if_pos hx]; simp only [true_iff]; exact Or.inl hx
+        · rw [if_neg hx]
+          simp only [Array.getD_eq_getD_getElem?, Array.getElem?_replicate]
+          have : x < (gOf ds).size + 1 := by rw [gOf_size]; omega
+          simp [this]
+          rintro (h | ⟨e, he, _⟩)
+          · exact hx h
+          · cases he
+      · intro x hx
+        simp only [List.mem_singleton] at hx
+        subst hx
+        exact ⟨Nat.le_refl 1, hsize, Or.inl rfl⟩
+    · intro x hx hxq
+      rcases hx with h | ⟨e, he, _⟩
+      · exact absurd (by rw [h]; simp) hxq
+      · cases he
+    · rw [gOf_size]; simp; omega
+  have hall : ∀ x, 1 ≤ x → x ≤ ds.size → Reached ds 1 (SpecC09.spanTree (gOf ds)) x := by
+    intro x h1 h2
+    have hr := hconn x h1 h2
+    clear h1 h2
+    induction hr with
+    | refl => exact Or.inl rfl
+    | @step e c i _ hi hop ih =>
+      obtain ⟨hi', _, _, hc'⟩ := op_some_iff.1 hop
+      rw [← hc']
+      exact hclosed e ih (by simp) i hi'
+  have hle := otree_length_le hv ⟨Nat.le_refl 1, hsize⟩ hot
+  obtain ⟨hnd, _⟩ := otree_nodup hv ⟨Nat.le_refl 1, hsize⟩ hot
+  have hsub : ds.view.elements ⊆ 1 :: targetsOf ds (SpecC09.spanTree (gOf ds)) := by
+    intro x hx
+    have hr := (DS.mem_elements ds.view x).1 hx
+    rcases hall x hr.1 hr.2 with h | ⟨e, he, h⟩
+    · rw [h]; simp
+    · exact List.mem_cons_of_mem _ (List.mem_map.2 ⟨e, he, h⟩)
+  have hel : ds.view.elements.Nodup := by
+    unfold View.elements
+    exact List.Nodup.map (fun a b h => by simpa using h) List.nodup_range
+  have := (hel.subperm hsub).length_le
+  unfold View.elements targetsOf at this
+  simp at this
+  have e : ds.view.size = ds.size := rfl
+  omega
 
 end DSymVerif.FGP
